@@ -110,3 +110,12 @@ Proof.
   destruct t as [|b t']; [simpl in H; lia|].
   destruct i as [|i]; [reflexivity|]. simpl removelast. simpl nth_error at 1. rewrite IH by (simpl in *; lia). reflexivity.
 Qed.
+
+(* two slot tables that agree on the visited positions give the same walk *)
+Lemma walk_ext n : forall h sl sl',
+  (forall x, In x (walk n h sl) -> nth_error sl' (N.to_nat x) = nth_error sl (N.to_nat x)) -> walk n h sl' = walk n h sl.
+Proof.
+  induction n as [|n IH]; intros h sl sl' H; simpl; [reflexivity|].
+  assert (Hh : nth_error sl' (N.to_nat h) = nth_error sl (N.to_nat h)) by (apply H; left; reflexivity).
+  rewrite Hh. f_equal. apply IH. intros x Hx. apply H. right. exact Hx.
+Qed.
